@@ -24,6 +24,12 @@ pub enum Sched {
         /// one item that takes this many milliseconds ("for every relative processing speed")
         #[serde(default)]
         slow: Option<(usize, u16)>,
+        /// the consumer waits this many microseconds after each item (back-pressure)
+        #[serde(default)]
+        consumer_us: u16,
+        /// the input iterator takes this many microseconds per item (slow source)
+        #[serde(default)]
+        upstream_us: u16,
     },
 }
 
@@ -179,7 +185,7 @@ pub fn run_controlled(t: usize, n: usize, sched: &Sched) -> Result<RunInfo, Stri
     res.map(|_| info)
 }
 
-fn run_real(t: usize, n: usize, delays: &[u16], chaos: u64, slow: Option<(usize, u16)>) -> Result<(), String> {
+fn run_real(t: usize, n: usize, delays: &[u16], chaos: u64, slow: Option<(usize, u16)>, consumer_us: u16, upstream_us: u16) -> Result<(), String> {
     let calls: Arc<Vec<AtomicUsize>> = Arc::new((0..n).map(|_| AtomicUsize::new(0)).collect());
     let calls2 = calls.clone();
     let delays: Vec<u16> = if delays.is_empty() { vec![0] } else { delays.to_vec() };
@@ -197,12 +203,20 @@ fn run_real(t: usize, n: usize, delays: &[u16], chaos: u64, slow: Option<(usize,
         (x, f_of(x))
     });
     text_utils::verif::install(Some(Chaos::new(chaos) as Arc<dyn Controller>));
-    let pipe = (0..n).pipe(pipeline, t as u8);
+    let source = (0..n).inspect(move |_| {
+        if upstream_us > 0 {
+            std::thread::sleep(Duration::from_micros(upstream_us as u64));
+        }
+    });
+    let pipe = source.pipe(pipeline, t as u8);
     text_utils::verif::install(None);
     install_panic_hook();
     let mut got = vec![];
     for it in pipe {
         beat();
+        if consumer_us > 0 {
+            std::thread::sleep(Duration::from_micros(consumer_us as u64));
+        }
         got.push(it);
         if got.len() > n {
             break;
@@ -274,10 +288,10 @@ pub fn enumerate(t: usize, n: usize, bound: usize, cap: usize, stats: &mut Stats
 impl Prop for C05 {
     type Case = Case;
     const ID: &'static str = "C05";
-    const RULE: &'static str = "T in 0..=4 (occasionally up to 8; real threads up to 16) worker threads x n in 0..=12 (occasionally up to 40) inputs x a generated schedule: (a) a vector of <= 400 choices over the enabled actors (consumer, workers parked at the hook points ticket/compute/turn-spin/send/advance/exit), completed non-preemptively, (b) a PCT schedule (random priorities + <= 3 priority change points), (c) thorough tier: every schedule with <= 2 preemptions for T <= 3, n <= 4 (stateless re-execution, reported as `enumerated`), (d) real threads with a chaos controller and generated per-item delays (n <= 200), or 2000-6000 items without delays (contention on the ticket lock), or one item that takes 1.3 / 2.7 s while all others are instant. The serialising controller runs exactly one actor at a time. Oracle after every step: the received sequence is a prefix of f(x0), f(x1), ...; no input processed twice; at the end every input processed exactly once, next() returns None, all workers reached their exit point; no deadlock. Non-trivial: the schedule preempts a worker between `before send` and `turn advanced`, or two workers are past compute at the same time. Distinct = distinct serialised case.";
+    const RULE: &'static str = "T in 0..=4 (occasionally up to 8; real threads up to 16) worker threads x n in 0..=12 (occasionally up to 40) inputs x a generated schedule: (a) a vector of <= 400 choices over the enabled actors (consumer, workers parked at the hook points ticket/compute/turn-spin/send/advance/exit), completed non-preemptively, (b) a PCT schedule (random priorities + <= 3 priority change points), (c) thorough tier: every schedule with <= 2 preemptions for T <= 3, n <= 4 (stateless re-execution, reported as `enumerated`), (d) real threads with a chaos controller and generated per-item delays, optionally a slow consumer (<= 0.4 ms per item: back-pressure) and/or a slow input iterator (<= 0.2 ms per item) (n <= 200), or 2000-6000 items without delays (contention on the ticket lock), or one item that takes 1.3 / 2.7 s while all others are instant. The serialising controller runs exactly one actor at a time. Oracle after every step: the received sequence is a prefix of f(x0), f(x1), ...; no input processed twice; at the end every input processed exactly once, next() returns None, all workers reached their exit point; no deadlock. Non-trivial: the schedule preempts a worker between `before send` and `turn advanced`, or two workers are past compute at the same time. Distinct = distinct serialised case.";
     const CLAIMS_TERMINATION: bool = true;
     const HANG_SECS: u64 = 30;
-    const ESSENTIAL: &'static [&'static str] = &["preempt_in_send_window", "two_workers_past_compute", "out_of_order_compute", "channel_full", "T=0", "n<T", "pct", "choices", "real", "slow_item"];
+    const ESSENTIAL: &'static [&'static str] = &["preempt_in_send_window", "two_workers_past_compute", "out_of_order_compute", "channel_full", "T=0", "n<T", "pct", "choices", "real", "slow_item", "slow_consumer", "slow_source"];
 
     fn budget(tier: Tier) -> Budget {
         match tier {
@@ -296,12 +310,13 @@ impl Prop for C05 {
             ],
         )
             .prop_map(|(t, n, sched)| Case { t, n, sched });
-        let real = (prop_oneof![8 => 0usize..=4, 1 => 5usize..=16], prop_oneof![3 => 0usize..=200, 1 => 2000usize..=6000], proptest::collection::vec(prop_oneof![3 => Just(0u16), 2 => 0u16..300], 1..=8), any::<u64>())
-            .prop_map(|(t, n, delays, chaos)| if n > 200 { (t, n, vec![0u16], chaos) } else { (t, n, delays, chaos) })
-            .prop_map(|(t, n, delays, chaos)| Case { t, n, sched: Sched::Real { delays, chaos, slow: None } });
+        let real = (prop_oneof![8 => 0usize..=4, 1 => 5usize..=16], prop_oneof![3 => 0usize..=200, 1 => 2000usize..=6000], proptest::collection::vec(prop_oneof![3 => Just(0u16), 2 => 0u16..300], 1..=8), any::<u64>(),
+            prop_oneof![3 => Just((0u16, 0u16)), 1 => (0u16..400, Just(0u16)), 1 => (Just(0u16), 0u16..200), 1 => (0u16..200, 0u16..200)])
+            .prop_map(|(t, n, delays, chaos, speeds)| if n > 200 { (t, n, vec![0u16], chaos, (0, 0)) } else { (t, n, delays, chaos, speeds) })
+            .prop_map(|(t, n, delays, chaos, (consumer_us, upstream_us))| Case { t, n, sched: Sched::Real { delays, chaos, slow: None, consumer_us, upstream_us } });
         // one very slow item: a consumer-side or worker-side timeout must not end or reorder the stream
         let slow = (1usize..=4, 2usize..=16, any::<u16>(), proptest::sample::select(vec![1300u16, 2700]), any::<u64>())
-            .prop_map(|(t, n, i, ms, chaos)| Case { t, n, sched: Sched::Real { delays: vec![0], chaos, slow: Some((idx16(i, n), ms)) } });
+            .prop_map(|(t, n, i, ms, chaos)| Case { t, n, sched: Sched::Real { delays: vec![0], chaos, slow: Some((idx16(i, n), ms)), consumer_us: 0, upstream_us: 0 } });
         prop_oneof![240 => controlled, 20 => real, 1 => slow].boxed()
     }
 
@@ -318,11 +333,13 @@ impl Prop for C05 {
         out.label_if(c.t == 0, "T=0");
         out.label_if(c.n < c.t, "n<T");
         match &c.sched {
-            Sched::Real { delays, chaos, slow } => {
+            Sched::Real { delays, chaos, slow, consumer_us, upstream_us } => {
                 out.label("real");
                 out.label_if(slow.is_some(), "slow_item");
+                out.label_if(*consumer_us > 0, "slow_consumer");
+                out.label_if(*upstream_us > 0, "slow_source");
                 out.nontrivial = c.t >= 2 && c.n >= 2 * c.t && delays.iter().any(|d| *d > 0);
-                if let Err(e) = run_real(c.t, c.n, delays, *chaos, *slow) {
+                if let Err(e) = run_real(c.t, c.n, delays, *chaos, *slow, *consumer_us, *upstream_us) {
                     out.fail(e);
                 }
             }
